@@ -110,6 +110,9 @@ def main():
         finally:
             sh(f'git -C {REPO} worktree remove --force {wt}')
             shutil.rmtree(wt, ignore_errors=True)
+            for w in (Path(__file__).resolve().parent.parent / 'work').glob('*-_tmp_seedwt_*'):
+                if w.name.endswith(sid.replace('-', '_')):
+                    shutil.rmtree(w, ignore_errors=True)
     sys.exit(rc)
 
 
